@@ -289,41 +289,53 @@ def rule_lane_forms(ctx, prog, rule="R15"):
             detail = ("stripped lane → plain quantile with the caller's q and strategy; " if good else
                       "quantile call: non-empty branch=%s receiver=stripped lane:%s q=caller's:%s strategy=caller's:%s; "
                       % (on_nonempty, recv, qok, iok))
-        # result conversion: from_not_nan_opt(None) on the empty branch
-        r = strip(c.return_expr())
-        conv = isinstance(r, tuple) and r[0] == "call" and r[1] == "from_not_nan_opt"
+        # result conversion: every value the lane closure returns is from_not_nan_opt(opt); the Option is None exactly on the
+        # empty side and Some(plain quantile) on the other (one conversion fed by a phi, or one conversion per branch)
+        conv_sites = []
+        ex_ = c.exits()
+        for d0 in (c.reaching_defs(0, ex_[0], "term") if ex_ else []):
+            e0 = strip(c.def_expr(0, d0))
+            if isinstance(e0, tuple) and e0[0] == "call" and e0[1] == "from_not_nan_opt" and d0[0] != "entry" and d0[1] == "term":
+                conv_sites.append(d0[0])
+            else:
+                conv_sites.append(None)
+        conv = bool(conv_sites) and all(x is not None for x in conv_sites)
         none_on_empty = False
-        if conv:
-            # the Option argument is a phi: its def on the `true` (empty) side must be None
-            argl = c.term(r[4])["args"][0]
+        all_plain = conv
+        n_some = 0
+        for cbb in (conv_sites if conv else []):
+            argl = c.term(cbb)["args"][0]
+            opts = []
             if argl["k"] in ("move", "copy"):
-                l = argl["pl"]["l"]
-                for d, e in option_defs(c, l):
-                    if isinstance(e, tuple) and e[0] == "agg" and e[2] == "None" and branch_dominates(c, sbb, tr, d[0]):
+                opts = option_defs(c, argl["pl"]["l"])
+            elif argl["k"] == "const":
+                opts = [((cbb, "term"), strip(c.call_arg_exprs(cbb)[0]))]
+            if not opts:
+                opts = [((cbb, "term"), strip(c.call_arg_exprs(cbb)[0]))]
+            for d, e in opts:
+                where_bb = d[0] if len(opts) > 1 or d[0] != cbb else cbb
+                if isinstance(e, tuple) and e[0] == "agg" and e[2] == "None":
+                    if branch_dominates(c, sbb, tr, where_bb) or branch_dominates(c, sbb, tr, cbb):
                         none_on_empty = True
-        # every non-None payload handed to from_not_nan_opt is that plain quantile (no second way to compute the result)
-        all_plain = False
-        if conv:
-            argl = c.term(r[4])["args"][0]
-            if argl["k"] in ("move", "copy"):
-                l = argl["pl"]["l"]
-                all_plain = True
-                n_some = 0
-                for d, e in option_defs(c, l):
-                    if isinstance(e, tuple) and e[0] == "agg" and e[2] == "None":
-                        continue
-                    if isinstance(e, tuple) and e[0] == "agg" and e[2] == "Some":
-                        n_some += 1
-                        v = strip(e[3][0])
-                        for _ in range(4):
-                            if isinstance(v, tuple) and v[0] == "call" and v[1] in ("into_scalar", "unwrap", "expect") and v[3]:
-                                v = strip(v[3][0])
-                        if not (isinstance(v, tuple) and v[0] == "call" and v[1] in ("quantile_axis_mut", "quantile_mut")):
-                            all_plain = False
-                            detail += "a lane result is computed as `%s`, not by the plain quantile routine; " % fmt(v)[:80]
                     else:
                         all_plain = False
-                all_plain = all_plain and n_some == 1
+                        detail += "the missing value is also produced for a non-empty stripped lane; "
+                    continue
+                if isinstance(e, tuple) and e[0] == "agg" and e[2] == "Some":
+                    n_some += 1
+                    v = strip(e[3][0])
+                    for _ in range(4):
+                        if isinstance(v, tuple) and v[0] == "call" and v[1] in ("into_scalar", "unwrap", "expect") and v[3]:
+                            v = strip(v[3][0])
+                    if not (isinstance(v, tuple) and v[0] == "call" and v[1] in ("quantile_axis_mut", "quantile_mut")):
+                        all_plain = False
+                        detail += "a lane result is computed as `%s`, not by the plain quantile routine; " % fmt(v)[:80]
+                    if not (branch_dominates(c, sbb, f, where_bb) or branch_dominates(c, sbb, f, cbb)):
+                        all_plain = False
+                        detail += "a quantile is produced on the empty side; "
+                else:
+                    all_plain = False
+        all_plain = all_plain and n_some == 1
         ok = good and conv and none_on_empty and all_plain
         detail += "empty stripped lane → from_not_nan_opt(None)" if (conv and none_on_empty) else "empty-lane result is not from_not_nan_opt(None)"
     ctx.ob(rule, "quantile_axis_skipnan_mut/strip-then-quantile", ok, q.where(), detail, what="skip-NaN quantile is not the plain quantile of the stripped lane")
